@@ -55,6 +55,8 @@ package art
 
 //@ func deconstruct
 //@   mode bv
+//@   assigns B
+//@   ensures[frame] frame()
 //@   ensures[len] len(result) == 4 && cap(result) == 4
 //@   ensures[lanes] forall(j, 0, 4, result[j] == lane(keys, j))
 //@   ensures[fresh] fresh(result)
